@@ -518,8 +518,9 @@ class Evaluator(object):
         if all(canon(leaf) == canon(L) for _, leaf in allcases):
             return pre
         uses_L = lambda x: sym.contains(x, lambda n: n == L)
+        body_fn = ("cases",) + tuple(("case", tuple(g), leaf) for g, leaf in allcases)
         if any(any(uses_L(a) for a, _ in g) for g, _ in allcases):
-            return ("loopmix", lid, name, pre)
+            return ("loopmix", lid, name, pre, body_fn)
         terms = []
         additive = True
         for g, leaf in allcases:
@@ -541,7 +542,7 @@ class Evaluator(object):
             return out
         if not any(uses_L(leaf) for _, leaf in allcases):
             return ("loopval", lid, name, allcases[-1][1])
-        return ("loopmix", lid, name, pre)
+        return ("loopmix", lid, name, pre, body_fn)
 
     def bind_target(self, target, elem, it, st, frame, node):
         if isinstance(target, ast.Name):
